@@ -159,6 +159,83 @@ fn err_json(e: &Error) -> J {
     json!({"err": mjverif::err_code(e.kind()), "chain": chain, "io_kind": io_kind, "io_msg": io_msg, "source_is_io": direct})
 }
 
+fn make_sink(s: &J) -> ScriptSink {
+    let script: Vec<Action> = s
+        .get("script")
+        .and_then(|x| x.as_array())
+        .map(|a| a.iter().map(|x| parse_action(x.as_str().unwrap_or("full"))).collect())
+        .unwrap_or_default();
+    ScriptSink {
+        script,
+        default: s.get("default").and_then(|x| x.as_str()).map(parse_action).unwrap_or(Action::Full),
+        record: s.get("record").and_then(|x| x.as_bool()).unwrap_or(false),
+        calls: 0,
+        got: vec![],
+        offered: vec![],
+        accepted: vec![],
+        first_fail: None,
+        offered_at_fail: None,
+        calls_after_fail: 0,
+        flushes: 0,
+    }
+}
+
+fn sink_json(sink: &ScriptSink, result: J) -> J {
+    let mut o = json!({"got": hex(&sink.got), "calls": sink.calls, "accepted": sink.accepted,
+        "first_fail": sink.first_fail, "offered_at_fail": sink.offered_at_fail,
+        "calls_after_fail": sink.calls_after_fail, "flushes": sink.flushes, "result": result});
+    if sink.record {
+        o["offered"] = json!(sink.offered);
+    }
+    o
+}
+
+fn panic_msg(p: Box<dyn std::any::Any + Send>) -> String {
+    p.downcast_ref::<String>().cloned().or_else(|| p.downcast_ref::<&str>().map(|s| s.to_string())).unwrap_or_default()
+}
+
+/// HISTORIES on one State: render_captured once, then a sequence of calls on the captured state.
+/// step: {"op": "block_to_write", "block": b, "script": [...], "default": a, "record": bool}
+///     | {"op": "block", "block": b} | {"op": "macro", "name": m}
+fn run_history(tmpl: &minijinja::Template<'_, '_>, ctxv: Value, steps: &[J]) -> J {
+    let mut captured = match tmpl.render_captured(ctxv) {
+        Ok(c) => c,
+        Err(e) => return json!({"history_error": err_json(&e)}),
+    };
+    let mut out = vec![];
+    for st in steps {
+        let op = st.get("op").and_then(|x| x.as_str()).unwrap_or("");
+        let name = st.get("block").or_else(|| st.get("name")).and_then(|x| x.as_str()).unwrap_or("");
+        match op {
+            "block_to_write" => {
+                let mut sink = make_sink(st);
+                let r = catch_unwind(AssertUnwindSafe(|| captured.with_state_mut(|state| state.render_block_to_write(name, &mut sink))));
+                let result = match r {
+                    Ok(Ok(())) => json!({"ok": true}),
+                    Ok(Err(e)) => {
+                        let _ = format!("{} {:#} {:?}", e, e, e);
+                        err_json(&e)
+                    }
+                    Err(p) => json!({"panic": panic_msg(p)}),
+                };
+                out.push(sink_json(&sink, result));
+            }
+            "block" | "macro" => {
+                let r = catch_unwind(AssertUnwindSafe(|| {
+                    captured.with_state_mut(|state| if op == "block" { state.render_block(name) } else { state.call_macro(name, &[]) })
+                }));
+                out.push(match r {
+                    Ok(Ok(s)) => json!({"result": {"ok": true}, "text": s}),
+                    Ok(Err(e)) => json!({"result": err_json(&e)}),
+                    Err(p) => json!({"result": {"panic": panic_msg(p)}}),
+                });
+            }
+            _ => out.push(json!({"result": {"bad_step": true}})),
+        }
+    }
+    json!({"history": out})
+}
+
 fn run(req: &J) -> J {
     let mut env = Environment::new();
     minijinja_contrib::add_to_environment(&mut env);
@@ -177,6 +254,9 @@ fn run(req: &J) -> J {
             out.write_str("}")?;
             Ok(())
         });
+    }
+    if let Some(n) = req.get("recursion_limit").and_then(|x| x.as_u64()) {
+        env.set_recursion_limit(n as usize);
     }
     let empty = serde_json::Map::new();
     let templates = req.get("templates").and_then(|x| x.as_object()).unwrap_or(&empty);
@@ -210,6 +290,9 @@ fn run(req: &J) -> J {
         Ok(t) => t,
         Err(e) => return json!({"load_error": {"name": main, "err": mjverif::err_code(e.kind())}}),
     };
+    if let Some(steps) = req.get("history").and_then(|x| x.as_array()) {
+        return run_history(&tmpl, ctxv, steps);
+    }
     let plain = match (block, both) {
         (None, Some(b)) => match tmpl.render_captured(ctxv.clone()).and_then(|mut c| {
             let first = c.output().to_string();
